@@ -22,7 +22,7 @@ def check_cuts_array(
     Returns
     -------
     cuts : np.ndarray
-        The input cuts array, converted to a signed integer type if necessary.
+        The input cuts array, converted to 64-bit signed integers if necessary.
 
     Raises
     ------
@@ -35,8 +35,9 @@ def check_cuts_array(
     if not np.issubdtype(cuts.dtype, np.integer):
         raise ValueError("The cuts must be of integer type.")
 
-    if np.issubdtype(cuts.dtype, np.unsignedinteger):
-        # Differences and negations of unsigned integers wrap around.
+    if cuts.dtype != np.int64:
+        # Differences and negations of unsigned integers wrap around, and so do
+        # products of segment lengths in narrower signed types.
         cuts = cuts.astype(np.int64)
 
     if cuts.shape[-1] != last_dim_size:
